@@ -858,10 +858,24 @@ func (c *evalCtx) callExpr(n *ECall) EV {
 			if t == nil {
 				c.fail("typeis needs a type")
 			}
+			if a.V.Typ != nil && !isInterface(a.V.Typ) {
+				// a value of concrete static type (an interface-level contract evaluated in an implementer, where
+				// self is the receiver): decided by type identity
+				return boolEV(cx.BoolLit(types.Identical(types.Unalias(a.V.Typ), types.Unalias(t))))
+			}
 			return boolEV(cx.Eq(a.V.Terms[0], cx.IntLit(int64(e.typeTag(t)))))
 		case "unbox":
 			a := c.eval(n.Args[0])
 			t := c.eval(n.Args[1]).Type
+			if a.V.Typ != nil && !isInterface(a.V.Typ) {
+				if types.Identical(types.Unalias(a.V.Typ), types.Unalias(t)) {
+					return a
+				}
+				// guarded by a false typeis: any value of the asked type will do
+				fv := e.fresh("unbox.other", t)
+				e.wrapPtr(&fv)
+				return EV{V: fv}
+			}
 			return EV{V: e.unbox(c.st, a.V, t)}
 		case "written":
 			a := c.eval(n.Args[0])
